@@ -46,5 +46,6 @@ let () =
     | "lin" -> M_lin.run_line
     | "own" -> M_own.run_line
     | "race" -> M_race.run_line
+    | "aobs" -> M_aobs.run_line
     | _ -> failwith ("unknown mode " ^ mode) in
   iter_lines stdin (fun line -> if line <> "" then f line)
